@@ -116,6 +116,9 @@ def lambda_bodies_charged(chk: Check, R: str) -> None:
                     show(cp.outcome[1]), e.text()))
             if len(e.args) != 1:
                 problems.append('body evaluated with %d arguments' % len(e.args))
+            elif freeze(e.args[0]) != stt:
+                problems.append('the body is evaluated with `%s`, not with the state the node itself was given: its operations are '
+                                'counted on another object' % show(e.args[0]))
         if n_normal == 0:
             problems.append('the closure never returns normally')
         where = '%s:%d' % (c.module.rel, c.node.lineno)
@@ -339,8 +342,9 @@ def lowered_calls(chk: Check) -> List[Tuple[Any, str, Tuple]]:
     return out
 
 
-def assignment_forms(chk: Check) -> List[Dict[str, Any]]:
-    """The assignment statements of the grammar and where each one lands."""
+def assignment_forms(chk: Check, strict: bool = True) -> List[Dict[str, Any]]:
+    """The assignment statements of the grammar and where each one lands.  With strict=False a form that cannot be classified
+    is left out (for callers that only need the operator strings the other forms pass on)."""
     F = chk.facts
     g = C.grammar(F)
     T = C.templates(F)
@@ -388,6 +392,8 @@ def assignment_forms(chk: Check) -> List[Dict[str, Any]]:
             namef = [n for n, v in flds.items() if isinstance(v, tuple) and v[:2] == ('tok', '1')]
             opf = [n for n, v in flds.items() if isinstance(v, tuple) and v[:2] == ('tok', str(idx))]
             if not vf:
+                if not strict:
+                    continue
                 raise AnalysisError('assignment template %s: right-hand side not stored in a field' % t.key)
             form.update(target='op', cls=cls, value_field=vf[0], name_field=namef[0] if namef else None,
                         op_field=opf[0] if opf else None)
